@@ -53,6 +53,29 @@ def rewritten_attrs(f: FuncInfo, recv: ClassInfo | None = None):
         if isinstance(e, ast.Attribute) and isinstance(e.value, ast.Name) and e.value.id in aliases:
             return e.attr
         return None
+    # `self.left, self.right = [t.replace_table(a, b) ... for t in (self.left, self.right)]` (or a display of the same
+    # arity): element i of the right-hand side is the rewrite of source i
+    for n in ast.walk(f.node):
+        if not (isinstance(n, ast.Assign) and len(n.targets) == 1 and isinstance(n.targets[0], (ast.Tuple, ast.List))):
+            continue
+        tgts = [sattr(t) for t in n.targets[0].elts]
+        if not tgts or not all(tgts):
+            continue
+        v = n.value
+        if isinstance(v, (ast.Tuple, ast.List)) and len(v.elts) == len(tgts):
+            for a, e in zip(tgts, v.elts):
+                if any(isinstance(x, ast.Call) and isinstance(x.func, ast.Attribute) and x.func.attr == "replace_table" for x in ast.walk(e)):
+                    out.setdefault(a, set()).update({b for x in ast.walk(e) if isinstance(x, ast.Attribute) for b in [sattr(x)] if b})
+        elif (isinstance(v, (ast.ListComp, ast.GeneratorExp)) and len(v.generators) == 1 and not v.generators[0].ifs
+              and isinstance(v.generators[0].iter, (ast.Tuple, ast.List)) and len(v.generators[0].iter.elts) == len(tgts)
+              and isinstance(v.generators[0].target, ast.Name)):
+            var = v.generators[0].target.id
+            rewrites_var = any(isinstance(x, ast.Call) and isinstance(x.func, ast.Attribute) and x.func.attr == "replace_table"
+                               and isinstance(x.func.value, ast.Name) and x.func.value.id == var for x in ast.walk(v.elt))
+            srcs_ = [sattr(e) for e in v.generators[0].iter.elts]
+            if rewrites_var and all(srcs_):
+                for a, b in zip(tgts, srcs_):
+                    out.setdefault(a, set()).add(b)
     for n in ast.walk(f.node):
         if isinstance(n, ast.Assign):
             for t in n.targets:
